@@ -220,6 +220,9 @@ def labels_part(ns, res, k=2):
 # ------------------------------------------------------------------------------- (4) scans
 
 SCAN_MAP = {"top": "rt", "a": "alpha", "ab": "beta", "a+b": "gamma", "topx": "other", "orders": "oo", "order": "pp", "der": "qq"}
+# a second target naming whose components begin or end with the text of the file suffix (py, pypy, happy): a name is
+# a name, also when it looks like '.py' once it is joined with dots
+SCAN_MAP_PY = {"top": "rt", "a": "py", "ab": "pypy", "a+b": "happy", "topx": "pyo", "orders": "oo", "order": "pp", "der": "qq"}
 
 
 def ren_path(rel, m):
@@ -240,6 +243,10 @@ def ren_fact(f, m):
 
 
 def scan_tree_part(entries, res):
+    return _scan_tree_part(entries, res, SCAN_MAP) + _scan_tree_part(entries, res, SCAN_MAP_PY)
+
+
+def _scan_tree_part(entries, res, SCAN_MAP):
     viol = []
     files, dirs = c04_materialise(entries)
     files2 = {ren_path(rel, SCAN_MAP): [ren_fact(f, SCAN_MAP) for f in fs] for rel, fs in files.items()}
